@@ -20,8 +20,38 @@ func (e *Engine) trustedCall(callee *ssa.Function, args []Val, st *State, reach 
 	}
 	str := func(i int) string { return termOf(args[i]) }
 	switch pkg {
+	case "strconv":
+		switch callee.Name() {
+		case "ParseInt", "Atoi":
+			// (i, err): err == nil ==> i within the requested bit size; a negative result needs a leading "-"
+			if s, ok := args[0].(StrV); ok && !e.bv() {
+				i := e.fresh("parseint", "Int")
+				er := e.fresh("parseint_err", "Int")
+				e.fact("(>= " + er + " 0)")
+				e.fact(intRange(callee.Signature.Results().At(0).Type(), i))
+				e.fact(imp(eq(er, "0"), and(imp("(< "+i+" 0)", "(str.prefixof \"-\" "+s.T+")"), "(> (str.len "+s.T+") 0)")))
+				e.fact(imp(not(eq(er, "0")), "(>= "+er+" 1000)"))
+				return TupleV{IntV{i}, ErrV{er}}, true
+			}
+		}
 	case "strings":
 		if e.bv() {
+			return nil, false
+		}
+		if callee.Name() == "SplitN" {
+			s, ok0 := args[0].(StrV)
+			sep, ok1 := args[1].(StrV)
+			n, ok2 := litInt(termOf(args[2]))
+			if ok0 && ok1 && ok2 && n == 2 && len(sep.T) > 2 && sep.T[0] == '"' {
+				has := "(str.contains " + s.T + " " + sep.T + ")"
+				idx := "(str.indexof " + s.T + " " + sep.T + " 0)"
+				first := ite(has, "(str.substr "+s.T+" 0 "+idx+")", s.T)
+				second := "(str.substr " + s.T + " (+ " + idx + " (str.len " + sep.T + ")) (str.len " + s.T + "))"
+				arr := e.newArr(st, types.Typ[types.String], false, "splitn")
+				m := st.arrs[arr]
+				m[".v"] = "(store (store " + m[".v"] + " 0 " + first + ") 1 " + second + ")"
+				return SliceV{Arr: arr, Off: "0", Len: ite(has, "2", "1"), Nil: "false"}, true
+			}
 			return nil, false
 		}
 		for _, a := range args {
